@@ -281,6 +281,12 @@ func init() {
 		val := fmt.Sprintf("(ite (= %s 0) %s (ite %s (- (div (- %s) 100)) (div %s 100)))", typ, iv, up, prod, prod)
 		return []Term{ite(okc, val, "0"), ite(okc, "nil_iface", errc)}
 	}
+	stubs["github.com/samber/lo.IsEmpty"] = func(cx *callCtx) []Term {
+		return []Term{eq(cx.args[0], cx.fr.eng.vc.zero(cx.argTs[0]))}
+	}
+	stubs["github.com/samber/lo.IsNotEmpty"] = func(cx *callCtx) []Term {
+		return []Term{not(eq(cx.args[0], cx.fr.eng.vc.zero(cx.argTs[0])))}
+	}
 	stubs["github.com/samber/lo.Must"] = func(cx *callCtx) []Term { return []Term{cx.args[0]} }
 	stubs["time.(Duration).Seconds"] = func(cx *callCtx) []Term {
 		return []Term{fmt.Sprintf("(/ (to_real %s) 1000000000.0)", cx.args[0])}
@@ -560,7 +566,15 @@ var purePrefixes = []string{
 
 // isPureName: calls that neither read nor write the modelled heap in a way that matters
 // (logging, metrics, formatting, event publishing). Results are arbitrary.
+// generated deep copies: fresh result, receiver untouched (listed assumption)
+func isDeepCopy(name string) bool {
+	return strings.HasSuffix(name, ").DeepCopy") || strings.HasSuffix(name, ").DeepCopyObject")
+}
+
 func isPureName(name string) bool {
+	if isDeepCopy(name) {
+		return true
+	}
 	// event constructors (pkg/.../events packages) only build Event values
 	if strings.HasPrefix(name, modPath+"/") && strings.Contains(name, "/events.") {
 		return true
